@@ -351,6 +351,9 @@ type Server struct {
 	open        atomic.Int32
 	stop        atomic.Int32
 
+	// serving is the number of Serve loops that count themselves in open.
+	serving atomic.Int32
+
 	rejectedRequestsCount atomic.Uint32
 
 	// Whether to disable keep-alive connections.
@@ -2004,7 +2007,11 @@ func (s *Server) Serve(ln net.Listener) error {
 	// a connection Shutdown is called which reads open as 0 because it isn't
 	// incremented yet.
 	s.open.Add(1)
-	defer s.open.Add(-1)
+	s.serving.Add(1)
+	defer func() {
+		s.serving.Add(-1)
+		s.open.Add(-1)
+	}()
 
 	for {
 		c, err := acceptConn(s, ln, &lastPerIPErrorTime)
@@ -2269,15 +2276,10 @@ func (s *Server) GetCurrentConcurrency() uint32 {
 //
 // This function is intended be used by monitoring systems.
 func (s *Server) GetOpenConnectionsCount() int32 {
-	if s.stop.Load() == 0 {
-		// Decrement by one to avoid reporting the extra open value that gets
-		// counted while the server is listening.
-		return s.open.Load() - 1
-	}
-	// This is not perfect, because s.stop could have changed to zero
-	// before we load the value of s.open. However, in the common case
-	// this avoids underreporting open connections by 1 during server shutdown.
-	return s.open.Load()
+	// Every running Serve loop counts itself as an open connection while it
+	// waits to accept one. Don't report those: there are none when the
+	// server is only used through ServeConn or after Serve has returned.
+	return s.open.Load() - s.serving.Load()
 }
 
 // GetRejectedConnectionsCount returns a number of rejected connections.
